@@ -1,6 +1,7 @@
 package main
 
 import (
+	"regexp"
 	"strings"
 
 	"golang.org/x/tools/go/ssa"
@@ -77,10 +78,15 @@ func checkC04(c *Ctx) {
 
 // ---------------- chained HotStuff ----------------
 
-const kCHS = "(*hs/protocol/rules.ChainedHotStuff).qcRef(p0, QC("
+const kCHS = "QCREF(QC("
+
+// qcRefRe: a call of the QC look-up helper, as a method of the ruleset or as a function of the package taking the block chain
+var qcRefRe = regexp.MustCompile(`(?:\(\*hs/protocol/rules\.\w+\)\.qcRef\(p0, |hs/protocol/rules\.qcRef\([^,()]*, )`)
+
+func normQcRef(s string) string { return qcRefRe.ReplaceAllString(s, "QCREF(") }
 
 func chainedAbbrev(s string) string {
-	s = baseAbbrev(s)
+	s = normQcRef(baseAbbrev(s))
 	s = strings.ReplaceAll(s, "p0->hs/protocol/rules.ChainedHotStuff.bLock", "lock")
 	s = strings.ReplaceAll(s, "p0->hs/protocol/rules.ChainedHotStuff.blockchain", "BC")
 	// nested qcRef calls, outermost first
@@ -130,11 +136,11 @@ func chainedVote() ruleSpec {
 
 // ---------------- Fast-HotStuff ----------------
 
-const kFHS = "(*hs/protocol/rules.FastHotStuff).qcRef(p0, QC("
+const kFHS = "QCREF(QC("
 
 func fastCommit() ruleSpec {
 	ab := func(s string) string {
-		s = baseAbbrev(s)
+		s = normQcRef(baseAbbrev(s))
 		par := kFHS + "p1))"
 		gp := kFHS + par + "#0))"
 		return applyDefs(s, [][2]string{{gp + "#0", "gp"}, {gp + "#1", "okgp"}, {par + "#0", "par"}, {par + "#1", "okpar"}})
@@ -230,6 +236,9 @@ func c04Helpers(c *Ctx) {
 	p := c.P
 	for _, t := range []string{"ChainedHotStuff", "FastHotStuff"} {
 		fn := p.Method("protocol/rules", t, "qcRef")
+		if fn == nil {
+			fn = p.Func("protocol/rules", "qcRef") // shared by the rulesets as a function of the package
+		}
 		if fn == nil {
 			c.Unresolved("C04.2", t+".qcRef", "anchor missing")
 			continue
